@@ -225,8 +225,9 @@ def match_known(sig: Tuple[str, ...], known: List[Dict[str, Any]]) -> Optional[D
     for e in known:
         if e.get("status", "known") != "known":
             continue  # "fixed" entries suppress nothing
-        if tuple(str(s) for s in e["signature"]) == sig:
-            return e
+        for cand in [e["signature"]] + list(e.get("also", [])):
+            if tuple(str(s) for s in cand) == sig:
+                return e
     return None
 
 
